@@ -531,10 +531,11 @@ theorem wf_addWord (s : ApiState) (h : WF s) (u o : Bool) : WF (step s (.addWord
     | exact h
     | (rename_i h0 hnu _ hc
        refine { dead := fun hr => absurd hr h0, noSearch := fun hn => (by cases hn), activeIff := h.activeIff,
-                inUtt := fun hx => absurd ⟨hc.1, hx⟩ hnu, dagFresh := h.dagFresh, alFresh := h.alFresh, iters := ?_ }
-       refine iters_of_invalidate h (p := isSegS) rfl ?_
+                inUtt := fun hx => absurd ⟨hc.1, hx⟩ hnu, dagFresh := h.dagFresh,
+                alFresh := fun hf => (by cases hf), iters := ?_ }
+       refine iters_of_invalidate h (p := fun k => isSegS k || isAliD k) rfl ?_
        intro k hp hl
-       cases k <;> simp_all [live, isSegS])
+       cases k <;> simp_all [live, isSegS, isAliD])
 
 theorem wf_setGrammar (s : ApiState) (h : WF s) (g : Bool) : WF (step s (.setGrammar g)).1 := by
   simp only [step]
@@ -543,10 +544,11 @@ theorem wf_setGrammar (s : ApiState) (h : WF s) (g : Bool) : WF (step s (.setGra
     | (rename_i h0 hu _
        refine { dead := fun hr => absurd hr h0, noSearch := fun hn => (by cases hn),
                 activeIff := ⟨fun hx => (by cases hx), fun hx => absurd hx hu⟩,
-                inUtt := fun hx => absurd hx hu, dagFresh := fun hx => (by cases hx), alFresh := h.alFresh, iters := ?_ }
-       refine iters_of_invalidate h (p := resultDrop s.dagId s.lats) rfl ?_
+                inUtt := fun hx => absurd hx hu, dagFresh := fun hx => (by cases hx),
+                alFresh := fun hf => (by cases hf), iters := ?_ }
+       refine iters_of_invalidate h (p := fun k => resultDrop s.dagId s.lats k || isAliD k) rfl ?_
        intro k hp hl
-       cases k <;> simp_all [live, resultDrop, dagDrop, isSegS]
+       cases k <;> simp_all [live, resultDrop, dagDrop, isSegS, isAliD]
        all_goals
          rcases hl with ⟨_, h2⟩ | h2
          · subst h2; first | exact hp rfl | exact .inr (hp rfl)
